@@ -630,6 +630,9 @@ class PDFPageInterpreter:
 
     def do_h(self) -> None:
         """Close subpath"""
+        if self.curpath and self.curpath[-1][0] == "h":
+            # the current subpath is already closed: nothing to do
+            return
         self.curpath.append(("h",))
 
     def do_re(self, x: PDFStackT, y: PDFStackT, w: PDFStackT, h: PDFStackT) -> None:
